@@ -41,8 +41,10 @@ def _mk_unit(u: family.Unit):
                 mname = "_".join(L._path(msg))
                 if only and not only.startswith("%s/%s/" % (pid, mname)):
                     continue
-                for what in ("encode", "decode", "json"):
+                for what in ("encode", "decode", "json", "history"):
                     if what == "json" and "C16" not in props:
+                        continue
+                    if what == "history" and not u.name.startswith("composite:"):
                         continue
                     def body(msg=msg, what=what, mname=mname):
                         mods, mod = load()
@@ -50,6 +52,8 @@ def _mk_unit(u: family.Unit):
                         E.proof_id = "%s/%s" % (pid, mname)
                         if what == "encode":
                             genpy.run_encode(E, cls, msg, mods)
+                        elif what == "history":
+                            genpy.run_history(E, cls, msg, mods)
                         elif what == "json":
                             genpy.run_json(E, cls, msg, mods, genpy.LAST_BP)
                             genpy.run_json_native(E, outs, _order(u.schema), u.schema.fname().replace(".bitproto", "_bp"), msg)
@@ -86,7 +90,7 @@ for _u in family.composite_units():
     if _u.name == "composite:enum-default-nonzero":
         _u.props = ["C02"]
     elif "composite" in _u.tags:
-        _u.props = ["C01", "C02", "C07", "C12", "C16"] + (["C11"] if ("imports" in _u.tags or _u.name == "composite:same-named-nested") else [])
+        _u.props = ["C01", "C02", "C07", "C12", "C16"] + (["C11"] if ("imports" in _u.tags or _u.name in ("composite:same-named-nested", "composite:deep-same-names")) else [])
     _mk_unit(_u)
 
 
